@@ -149,7 +149,7 @@ func c03Prepare(l *c03Lists, strictSNI bool) (u *c03Unstarted, err error) {
 	sconf := &ServerConfig{
 		UDPListenAddrs: []*net.UDPAddr{{IP: lo, Port: 5399}},
 		TCPListenAddrs: []*net.TCPAddr{{IP: lo, Port: 5399}},
-		TLSConf:        &TLSConfig{ServerName: c03SrvName, StrictSNICheck: strictSNI},
+		TLSConf:        &TLSConfig{ServerName: map[bool]string{false: c03SrvName, true: ""}[l.NoServerName], StrictSNICheck: strictSNI},
 		Config: Config{
 			UpstreamMode:      UpstreamModeLoadBalance,
 			EDNSClientSubnet:  &EDNSClientSubnet{Enabled: false},
@@ -501,6 +501,10 @@ func c03Context(c *c03Case, reqID uint64, msgID uint16) *proxy.DNSContext {
 				r.URL.Path = "/dns-query/" + c.ID
 			}
 			r.TLS = &tls.ConnectionState{ServerName: c03SrvName}
+		case "path-notls":
+			if c.ID != "" {
+				r.URL.Path = "/dns-query/" + c.ID
+			}
 		case "sni":
 			r.TLS = &tls.ConnectionState{ServerName: srvName}
 			r.Host = srvName
@@ -609,7 +613,7 @@ func TestVerifC03Decision(t *testing.T) {
 			// A long-lived server per worker for configurations set through
 			// the API handler.
 			var api *c03Unstarted
-			apiStrict, apiDDR := w%2 == 1, w%4 < 3
+			apiStrict, apiDDR, apiNoName := w%2 == 1, w%4 < 3, w == 2 || w == 5
 			defer func() {
 				if api != nil {
 					api.close()
@@ -621,15 +625,17 @@ func TestVerifC03Decision(t *testing.T) {
 				l := c03GenLists(rng, viaAPI)
 				l.HandleDDR = rng.Intn(4) != 0
 				l.Protection = c03ProtectionStates[rng.Intn(len(c03ProtectionStates))]
+				l.NoServerName = rng.Intn(4) == 0
 				if viaAPI {
 					l.HandleDDR = apiDDR
+					l.NoServerName = apiNoName
 				}
 				var u *c03Unstarted
 				var err error
 				strict := apiStrict
 				if viaAPI {
 					if api == nil {
-						if api, err = c03Prepare(&c03Lists{HandleDDR: apiDDR}, apiStrict); err != nil {
+						if api, err = c03Prepare(&c03Lists{HandleDDR: apiDDR, NoServerName: apiNoName}, apiStrict); err != nil {
 							rep.Inconcl("cannot prepare a server: " + err.Error())
 
 							continue
@@ -677,6 +683,7 @@ func TestVerifC03Decision(t *testing.T) {
 		{"doh_two_clientids_decision_depends_on_which_id:strict", 30}, {"doh_two_clientids_decision_depends_on_which_id:lax", 30},
 		{"protection_off:refused_by_name_only", 30}, {"protection_paused:refused_by_name_only", 30},
 		{"protection_pause-expired:refused_by_name_only", 20}, {"protection_paused:admitted", 50},
+		{"no_server_name:doh_path_clientid_decides", 30}, {"no_server_name:clientid_in_doh_path:path-notls", 20},
 		{"special_name:refused", 200}, {"special_name:admitted", 50}, {"ddr_name:refused:handle_ddr=true", 30}, {"ddr_name:refused:handle_ddr=false", 10},
 		{"doh_two_clientids:equal:strict", 10}, {"doh_two_clientids:sni-invalid:strict", 10}} {
 		if n := rep.ClassCount(need.class); n < need.min {
@@ -749,7 +756,9 @@ func c03RunConf(rep *verifkit.Report, rng *rand.Rand, idx int, s *Server, l *c03
 		if proto == proxy.ProtoTLS || proto == proxy.ProtoHTTPS || proto == proxy.ProtoQUIC {
 			c.ID = c03GenID(rng, both)
 			if proto == proxy.ProtoHTTPS {
-				c.Carrier = []string{"path", "path", "sni", "host"}[rng.Intn(4)]
+				// "path-notls": DoH that arrives without TLS state (plain
+				// HTTP behind a proxy) with the ClientID in the path.
+				c.Carrier = []string{"path", "path", "path-notls", "sni", "host"}[rng.Intn(5)]
 			} else {
 				c.Carrier = "sni"
 			}
@@ -773,6 +782,25 @@ func c03RunConf(rep *verifkit.Report, rng *rand.Rand, idx int, s *Server, l *c03
 		c.QType = dns.TypeToString[c.qtype]
 
 		cv := c03DecideClient(allow, deny, c.addr, c.ID)
+		// IsBlockedClient is given the ClientID directly; HandleBefore has to
+		// find it in the request.
+		cvAPI := cv
+		if l.NoServerName && c.ID != "" {
+			if c.Carrier == "sni" || c.Carrier == "host" {
+				if cv0 := c03DecideClient(allow, deny, c.addr, ""); cv0.Specified != cv.Specified || cv0.Excluded != cv.Excluded {
+					cv.Specified = false
+					cv.Zones = append(cv.Zones, c03ZoneNoName)
+				}
+				rep.Class("no_server_name:clientid_in_server_name")
+			} else {
+				rep.Class("no_server_name:clientid_in_doh_path:" + c.Carrier)
+				if cv.Specified && c.TwoIDs == "" {
+					if cv0 := c03DecideClient(allow, deny, c.addr, ""); cv0.Specified && cv0.Excluded != cv.Excluded {
+						rep.Class("no_server_name:doh_path_clientid_decides")
+					}
+				}
+			}
+		}
 		nameBlocked, by, disagree := c03NameBlocked(pats, c.Name, c.qtype)
 		if disagree {
 			rep.Event("host_model_crosscheck_disagreements")
@@ -872,14 +900,14 @@ func c03RunConf(rep *verifkit.Report, rng *rand.Rand, idx int, s *Server, l *c03
 
 		refused := nameBlocked || (cv.Specified && cv.Excluded)
 		// IsBlockedClient is about the client only.
-		if cv.Specified && o.IsBlockedClient != cv.Excluded {
+		if cvAPI.Specified && o.IsBlockedClient != cvAPI.Excluded {
 			mode := "deny-mode"
 			if cv.AllowMode {
 				mode = "allow-mode"
 			}
 			rep.Violate(fmt.Sprintf("is-blocked-client:%s:got-%v", mode, o.IsBlockedClient),
-				fmt.Sprintf("IsBlockedClient(%s, %q) = %v, the access settings say excluded = %v", c.Addr, c.ID, o.IsBlockedClient, cv.Excluded),
-				witness(fmt.Sprintf("excluded=%v", cv.Excluded)))
+				fmt.Sprintf("IsBlockedClient(%s, %q) = %v, the access settings say excluded = %v", c.Addr, c.ID, o.IsBlockedClient, cvAPI.Excluded),
+				witness(fmt.Sprintf("excluded=%v", cvAPI.Excluded)))
 		}
 		if refused {
 			rep.Class(c.Proto + ":refused")
